@@ -4,7 +4,7 @@ import ast
 from ..exprnf import ev, Undecidable, affine_in
 from ..flow import walk
 from ..model import norm
-from ..rules import resolve, bind, inout, kinds, parallel, rngsites, guards
+from ..rules import resolve, bind, inout, kinds, parallel, rngsites, guards, effect
 from . import common as K
 
 EXPLANATION = ('map_to_state / state_to_map are read as affine row permutations (loop form) or slice assignments (torch) and '
@@ -203,6 +203,19 @@ def check(run):
         run.check(len(xs) == 1 and norm(xs[0]).replace(' ', '') == '[1]*N', 'R12.ghz', g, 'X...X', 'GHZ stabilizer X on every qubit (code 1 repeated N times)')
         rets = [norm(st.value).replace(' ', '') for st, _ in walk(g.node) if isinstance(st, ast.Return)]
         run.check(len(rets) == 1 and rets[0].startswith('stabilizer_state(paulis(objs'), 'R12.ghz', g, 'return', 'the GHZ state is the stabilizer state of these operators')
+    # every constructor returns a new object built from nothing but its arguments: no module-level state is written and no
+    # stored object is handed out twice (a cached identity table would be shared by every later state)
+    eff = K.effects_of(repo)
+    for rel in (K.PY_S, K.TC_S):
+        for n in ('identity_map', 'maximally_mixed_state', 'zero_state', 'one_state', 'ghz_state', 'stabilizer_state',
+                  'random_pauli_state', 'random_clifford_state', 'CliffordMap.to_state', 'StabilizerState.to_map'):
+            g = repo.func(rel, n)
+            effect.check_pure(run, eff, g, what='constructor')
+            effect.check_fresh_result(run, eff, g)
+    # the random-product constructor: one independent anticommuting pair per qubit on the diagonal 2x2 blocks
+    from .C16 import pauli_blocks, flip_everywhere
+    pauli_blocks(run, repo)
+    flip_everywhere(run, repo)
     entries = []
     for rel in (K.PY_S, K.TC_S):
         for n in ('CliffordMap.to_state', 'StabilizerState.to_map', 'stabilizer_state', 'maximally_mixed_state', 'zero_state', 'one_state',
@@ -218,6 +231,9 @@ def check(run):
     run.floor('R6.qutip', 6)
     run.floor('R5', 2)
     run.floor('R12.ghz', 8)
+    run.floor('R4a.fresh', 20)
+    run.floor('R13.sampler', 1)
+    run.floor('R8.flip', 3)
     run.floor('R9.block', 2)
     run.floor('R9.pivot', 3)
     run.decide('map<->state row permutations (both packages, strings and phases, mutually inverse); conversion and constructor '
